@@ -31,7 +31,7 @@ RULE_FUNCS = [
     (S.r_check_then_act, ['R03.b']),
     (S.r_pop_discard, ['R03.pop', 'R09.7', 'R09.8']),
     (S.r_pop_unwrap, ['R04.9', 'R01.5']),
-    (S.r_c04, ['R04.1', 'R04.2', 'R04.3', 'R04.4', 'R04.7', 'R04.8']),
+    (S.r_c04, ['R04.1', 'R04.2', 'R04.3', 'R04.4', 'R04.7', 'R04.8', 'R05.4']),
     (S.r_abort, ['R05.2', 'R05.3', 'R05.4']),
     (S.r_c19, ['R19.1', 'R19.6']),
     (S.r_must_explore, ['R09.6']),
@@ -62,6 +62,7 @@ RULE_FUNCS = [
     (T.r_dom_cmp, ['R10.2']),
     (T.r_dom_store, ['R10.3', 'R10.4', 'R10.5', 'R18.a', 'R18.c']),
     (T.r_cache_store, ['R18.a', 'R18.b', 'R18.c', 'R18.e']),
+    (T.r_dashmap_guards, ['R18.a']),
 ]
 
 
@@ -126,12 +127,12 @@ def _c01_keep(r):
 
 PROPS = {
     'C01': dict(fn=mk(C01_RULES, lambda r: _c01_keep(r)), explanation='prune polarity at the pop / enqueue / rough-bound sites, restricted->relaxed->enqueue protocol, Complete only on an empty fringe, exactness withdrawn on every path that squashes a layer'),
-    'C02': dict(fn=mk(['R02.', 'R12.a', 'R06.1', 'R06.2', 'R06.3', 'R11.d', 'R11.e']), explanation='incumbent value and solution written together from the exact accessors of one diagram (one lock region in the parallel solver), improve-only guard, reported value = best_sol.map(|_| best_lb); longest-path max-update with witness edge; value and path read from one node; exact-best selection table'),
+    'C02': dict(fn=mk(['R02.', 'R12.a', 'R06.1', 'R06.2', 'R06.3', 'R11.d', 'R11.e', 'R08.1']), explanation='incumbent value and solution written together from the exact accessors of one diagram (one lock region in the parallel solver), improve-only guard, reported value = best_sol.map(|_| best_lb); longest-path max-update with witness edge; value and path read from one node; exact-best selection table'),
     'C03': dict(witnesses=['W1', 'W2'], fn=mk(['R05.2', 'R01.', 'R02.', 'R03.', 'R04.9', 'R06.', 'R07.1', 'R07.5', 'R07.6', 'R15.5', 'R08.', 'R09.', 'R10.', 'R11.', 'R12.', 'R18.'], _c03_keep), explanation='C01 clauses instantiated on ParallelSolver, lock regions (no re-entrant acquisition, one acquisition per check-then-act), pop-time discard polarity, cache mark guarded by must_explore'),
-    'C04': dict(fn=mk(['R04.', 'R11.c', 'R09.8'], lambda r: r['rule'].startswith(('R04', 'R11')) or r['instance'].startswith(('par/', 'clear-zeroes'))), explanation='checked premises P1-P8 of the deadlock-freedom argument (DESIGN.md C04): pairing of ongoing, release on every worker exit, wake-up not before the decrement, wait guards (path-consistent enumeration), completion guard, no re-entrant lock, vector length coupled to nb_threads, spawn range'),
+    'C04': dict(fn=mk(['R04.', 'R11.c', 'R09.8', 'R18.a'], lambda r: r['rule'].startswith(('R04', 'R11', 'R18')) or r['instance'].startswith(('par/', 'clear-zeroes'))), explanation='checked premises P1-P8 of the deadlock-freedom argument (DESIGN.md C04): pairing of ongoing, release on every worker exit, wake-up not before the decrement, wait guards (path-consistent enumeration), completion guard, no re-entrant lock, vector length coupled to nb_threads, spawn range'),
     'C05': dict(fn=mk(['R05.', 'R19.1', 'R19.2', 'R11.', 'R02.1', 'R02.5', 'R01.2', 'R01.3']), explanation='cutoff => Err without finalisation; Err => abort_search on all paths; abort_proof set; completion unreachable after abort; bound stored at abort covers own node, in-flight nodes and fringe top; sequential best_ub written at pop only'),
-    'C06': dict(fn=mk(['R06.', 'R02.4', 'R02.6', 'R01.6', 'R01.7', 'R12.e', 'R07.5']), explanation='arc redirection with relaxed cost, relaxed/deleted flags, exactness propagation, complete reset between compilations (field table from the ADT), flag bits and tables, rough-bound pruning direction, exactness withdrawn when squashing'),
-    'C07': dict(fn=mk(['R07.', 'R01.7', 'R02.4', 'R02.5', 'R02.6', 'R13.a', 'R13.b', 'R06.3', 'R12.a']), explanation='restricted never merges, exact never squashes, truncation withdraws exactness and flags dropped nodes, squash order, value and path from one node through the best-edge chain, expanded vector is the squashed one'),
+    'C06': dict(fn=mk(['R06.', 'R02.4', 'R02.6', 'R01.6', 'R01.7', 'R12.e', 'R07.5', 'R05.1']), explanation='arc redirection with relaxed cost, relaxed/deleted flags, exactness propagation, complete reset between compilations (field table from the ADT), flag bits and tables, rough-bound pruning direction, exactness withdrawn when squashing'),
+    'C07': dict(fn=mk(['R07.', 'R01.7', 'R02.4', 'R02.5', 'R02.6', 'R13.a', 'R13.b', 'R06.3', 'R12.a', 'R05.1']), explanation='restricted never merges, exact never squashes, truncation withdraws exactness and flags dropped nodes, squash order, value and path from one node through the best-edge chain, expanded vector is the squashed one'),
     'C08': dict(fn=mk(['R08.', 'R01.4', 'R15.3', 'R12.e', 'R12.d', 'R06.1', 'R06.2', 'R06.3', 'R02.6'], lambda r: r['rule'] != 'R12.e' or 'relax-' in r['instance'] or 'merge' in r['instance']), explanation='sub-problem fields from one exact, marked node; frontier/LEL admission; progress (first layer never squashed; root test for diagrams that keep nodes in the pool); ub term set; local-bound max-update; push unless ub <= best_lb'),
     'C09': dict(fn=mk(['R09.', 'R18.', 'R03.pop', 'R07.5', 'R07.6', 'R15.5', 'R08.3'], lambda r: 'threshold-order' not in r['instance'] and 'threshold-no-manual' not in r['instance']), explanation='who writes thresholds and when; explored flag; filter below the root only; filter polarity and theta inheritance; closed list of theta writes with their guards; cache entry fields; mark at pop; must_explore before compiling'),
     'C10': dict(fn=mk(['R10.', 'R07.6', 'R15.5']), explanation='decision tables extracted by path enumeration with literal consistency: partial_cmp loop automaton (9 cases) and value stage (9 cases), cmp polarity, retain closure table, threshold terms, store keys, in-layer filtering protocol'),
